@@ -95,7 +95,7 @@ var groupSets = [][]string{{"eng"}, {"eng", "ops"}, {"g-1", "team blue", "x"}, {
 // forge builds a session for host that needs no refresh or validation.
 func forge(q Q, host string, r *rand.Rand) *sessions.SessionState {
 	now := time.Now()
-	s := &sessions.SessionState{ProviderSlug: slug, ProviderType: "sso", AuthorizedUpstream: host, RefreshToken: "rt-1",
+	s := &sessions.SessionState{ProviderSlug: slug, ProviderType: "sso", AuthorizedUpstream: host, RefreshToken: fmt.Sprintf("rt-%08x%08x", r.Uint32(), r.Uint32()),
 		LifetimeDeadline: now.Add(5 * 24 * time.Hour), RefreshDeadline: now.Add(2 * time.Hour), ValidDeadline: now.Add(time.Hour)}
 	u := users[r.Intn(len(users))]
 	s.Email = u + "@" + pick(r, allowedDomain, "Allowed.Test")
